@@ -296,8 +296,18 @@ fn process_diffs_interactive<P: Printer>(
   let mut all = interactive.accept_all;
   let mut end = 0;
   let path = diffs.path;
+  // the ranges already rewritten by the other documents of this file, e.g. its html part.
+  // An edit that overlaps one of them cannot be applied, and it must not shadow the edits
+  // nested in it either
+  let taken: Vec<Range<usize>> = match interactive.written.get(&path) {
+    Some((old_source, written)) if *old_source == diffs.old_source => {
+      written.iter().map(|d| d.range.clone()).collect()
+    }
+    _ => vec![],
+  };
   for diff in diffs.contents {
-    if diff.range.start < end {
+    let range = &diff.range;
+    if range.start < end || taken.iter().any(|t| range.start < t.end && t.start < range.end) {
       continue;
     }
     let to_confirm = InteractiveDiff {
